@@ -206,6 +206,7 @@ pub struct StdSender { _p: () }
 impl StdSender { #[verifier::external_body] pub fn send(&self, v: ()) -> (r: Result<(), StdSendError>) ensures r is Ok { unimplemented!() } }
 /// PROPHECY names: the registration / deregistration command the arbiter thread sends during the verified call, with the
 /// queue it is sent on (R8: the two `.send(SystemCommand::…)` calls are told apart by their argument's constructor)
+//@once send_cmd, send_reg, send_dereg, spawn
 pub uninterp spec fn reg_cmd() -> (int, SystemCommand);
 pub uninterp spec fn dereg_cmd() -> (int, SystemCommand);
 impl mpsc::UnboundedSender<SystemCommand> {
